@@ -119,7 +119,18 @@ fn typed<T: DeserializeOwned + ToJ>(ty: &str, text: &str, out: &mut Vec<J>) {
         Ok(Err(_)) => json!({"res": "err", "val": proj::dummy(), "sp": [], "inner": proj::dummy()}),
         Err(_) => json!({"res": "panic", "val": proj::dummy(), "sp": [], "inner": proj::dummy()}),
     };
-    out.push(json!({"ty": ty, "plain": pj, "spanned": sj}));
+    // the same target decoded from an editable document: no source text, so errors carry a key path instead
+    let dm = catch_unwind(AssertUnwindSafe(|| {
+        text.parse::<toml_edit::DocumentMut>().ok().map(|d| toml_edit::de::from_document::<Plain<T>>(d))
+    }));
+    let dj = match &dm {
+        Ok(Some(Ok(v))) => json!({"res": "ok", "val": v.k.to_j(), "span": [], "rendered": []}),
+        Ok(Some(Err(e))) => json!({"res": "err", "val": proj::dummy(), "span": e.span().map(|s| vec![s.start, s.end]).unwrap_or_default(),
+                                   "rendered": cps(&e.to_string()), "msg_nonempty": !e.message().is_empty()}),
+        Ok(None) => json!({"res": "none", "val": proj::dummy(), "span": [], "rendered": []}),
+        Err(_) => json!({"res": "panic", "val": proj::dummy(), "span": [], "rendered": []}),
+    };
+    out.push(json!({"ty": ty, "plain": pj, "spanned": sj, "from_docmut": dj}));
 }
 
 /// --in texts.ndjson
